@@ -103,6 +103,34 @@ def overlap_specs(tier, rng):
     return out
 
 
+def placeholder_specs(tier, rng):
+    """prioritised rules whose alternatives hold [..] placeholders and ? optionals (every such alternative is compiled with
+    its own copy of the rule's options): invert / None must reach all of them"""
+    import itertools
+    T, R = E.tok, E.ref
+    A, B = T('A'), T('B')
+
+    def rule(name, bodies, prio):
+        return {'name': name, 'expand1': False, 'keepall': False, 'prio': prio, 'alts': [{'alias': '', 'body': b} for b in bodies]}
+    shapes = [
+        lambda p: [rule('start', [R('a'), R('b')], 0), rule('a', [E.seq([A, E.maybe(B)])], p[0]), rule('b', [E.seq([A, E.opt(B)])], p[1])],
+        lambda p: [rule('start', [R('a'), R('b')], 0), rule('a', [E.seq([E.maybe(A), B])], p[0]), rule('b', [E.seq([E.opt(A), B]), E.seq([A, A, B])], p[1])],
+        lambda p: [rule('start', [R('b'), R('a')], 0), rule('a', [E.seq([A, E.maybe(B), A]), E.seq([A, E.maybe(R('c'))])], p[0]), rule('b', [E.seq([A, E.opt(B), E.opt(A)])], p[1]),
+                   rule('c', [B, A], p[2])],
+        lambda p: [rule('start', [E.seq([R('a'), R('b')])], 0), rule('a', [E.seq([A, E.maybe(B)]), A], p[0]), rule('b', [E.seq([E.maybe(B), A]), E.seq([B, A, E.maybe(A)])], p[1])],
+    ]
+    words = [w for k in range(1, 5) for w in itertools.product(['A', 'B'], repeat=k)]
+    out = []
+    for k in range(C.scale(60 if tier == 'quick' else 300)):
+        p = [rng.choice([-2, -1, 1, 2, 3]) for _ in range(3)]
+        G = {'rules': shapes[k % len(shapes)](p)}
+        G0 = {'rules': [dict(r, prio=0) for r in G['rules']]}
+        ws = [list(w) for w in words]
+        out.append({'Gb': (), 'G': G, 'rprio': {}, 'tprio': {'A': 0, 'B': 0, '_C': 0, 'D': 0}, 'gtext': E.grammar_text(G), 'gtext_noprio': E.grammar_text(G0),
+                    'texts': [E.to_text(w) for w in ws], 'ws': ws, 'lexers': ['basic', 'dynamic'], 'emptyalt': False, 'ph': True})
+    return out
+
+
 def make_specs(tier, rng):
     out = []
     Gs = [G for G in F.bnf_family(3)]
@@ -172,6 +200,7 @@ def body(tier, seed, replay):
         specs = [s for s in specs if not E.deriv_cyclic([(l, list(r)) for l, r in s['Gb']])]
         if not replay:
             specs += overlap_specs(tier, rng)
+            specs += placeholder_specs(tier, rng)
         seeds = [0, 1, 2, 3, 4] if tier == 'quick' else list(range(0, 16))       # (thorough: 3.5 x the grammars, 16 hash seeds - about 25 minutes)
         # split the spec list over parallel workers per seed: chunks
         chunks = [ch for ch in (specs[i::3] for i in range(3)) if ch]
@@ -182,7 +211,7 @@ def body(tier, seed, replay):
         for ch, outs in zip(chunks, results):
             for si, sp in enumerate(ch):
                 base = outs[0][si]
-                G = E.grammar_json(sp['G'], False, False)
+                G = E.grammar_json(sp['G'], False, bool(sp.get('ph')))
                 inputs = []
                 for ti, w in enumerate(sp['ws']):
                     obs = []
